@@ -641,7 +641,7 @@ def run(ctx):
                                      for k, o in zip([k for k, op in enumerate(sc["ops"]) if op[0] == "D"], ob)]))
         # direct predicates on the real chain service: never a reorg after a refused NeedReorganization,
         # main chain at heights <= scripted LIB never changes
-        lib, prev_main = 0, [0]
+        lib, prev_main, prev_best = 0, [0], 0
         j = 0
         for op in sc["ops"]:
             if op[0] == "L":
@@ -656,6 +656,14 @@ def run(ctx):
                                            "real ChainService replaced the block at height %d <= LIB %d" % (h, lib),
                                            {"scenario": sc, "detail": {"before": prev_main, "after": m}}))
                         break
+                # what a restart right after this call would load: the status saved in the chain DB must be
+                # the status after the last Update of a committed call (connect or reorganisation)
+                if o["best"] != prev_best and o.get("saved", o["best"]) != o["best"]:
+                    chain_pred.append(("C08:status-not-saved-with-chain-tip",
+                                       "after the best block changed to %d the consensus status saved in the chain DB is the one of "
+                                       "block %d: a restart now loads a status that is not the running one" % (o["best"], o.get("saved", -1)),
+                                       {"scenario": sc, "detail": {"main": m, "calls": o["calls"]}}))
+                prev_best = o["best"]
                 prev_main = m
     pred_fail += chain_pred
     stats["chain_service_deliveries"] = sum(len(o) for o in cobs)
